@@ -1,0 +1,21 @@
+//go:build verif
+
+package cmd
+
+import (
+	"math/rand"
+
+	"github.com/hnakamur/whispertool"
+)
+
+// VerifRandomPointsList exposes randomPointsList, the generator behind the
+// generate subcommand, with an explicit random seed and an explicit clock.
+func VerifRandomPointsList(retentions whispertool.ArchiveInfoList, seed int64, randMax int, until, now whispertool.Timestamp) PointsList {
+	return randomPointsList(retentions, rand.New(rand.NewSource(seed)), randMax, until, now)
+}
+
+// VerifUpdateFileDataWithPointsList exposes updateFileDataWithPointsList, the
+// per-archive write generate performs before it syncs the file.
+func VerifUpdateFileDataWithPointsList(db *whispertool.Whisper, pointsList PointsList, now whispertool.Timestamp) error {
+	return updateFileDataWithPointsList(db, pointsList, now)
+}
